@@ -5,10 +5,12 @@
      QueriesHier.v    ordered_subnodes_hierarchy
      QueriesDepth.v   node_depth, LinkedGraph.depth
      QueriesOracle.v  reflection of the independent closure oracle used by holds_l
+     QueriesBig(Proofs).v  frontier formulation for large graphs: equal to the model, decides the spec
    This file gathers them and adds statements that connect the model to the oracle. *)
 From Coq Require Import List Arith Bool ZArith Lia.
 From GolemV Require Export Base.Closure Graph.QueriesSpec Graph.Queries Graph.QueriesBasics
-  Graph.QueriesCycle Graph.QueriesLocal Graph.QueriesHier Graph.QueriesDepth Graph.QueriesOracle.
+  Graph.QueriesCycle Graph.QueriesLocal Graph.QueriesHier Graph.QueriesDepth Graph.QueriesOracle
+  Graph.QueriesBig Graph.QueriesBigProofs.
 Import ListNotations.
 
 Lemma wf_b_iff : forall g, wf_b g = true <-> wf g.
